@@ -86,10 +86,99 @@ func scenarios(run *report.Run) []scen {
 			}
 		}
 	}
+	// pool wind-down under lock contention: a far future stays pending, a blocking burst grows the pool to its
+	// limit, then all surplus workers leave at about the same time while four goroutines hammer the package
+	// lock (hook reads). Exactly one worker has to stay as long as the far future is pending.
+	for _, mw := range []int{2, 10} {
+		for rep := 0; rep < run.Pick(3, 12); rep++ {
+			res = append(res, scen{Order: []string{"contended"}, Callers: 1 + rep%3, Idle: 20 * time.Millisecond, MaxWorkers: mw})
+		}
+	}
 	return res
 }
 
+// contendedWindDown: see scenarios().
+func contendedWindDown(sc scen) (fs []tmon.Finding, nFut int, stats map[string]int64, inconclusive string) {
+	stats = map[string]int64{}
+	for round := 0; round < 25; round++ {
+		timeout.VerifReset(sc.Idle, sc.MaxWorkers)
+		mon := tmon.New()
+		stop := make(chan struct{})
+		var lost atomic.Value
+		var hwg sync.WaitGroup
+		for g := 0; g < 4; g++ {
+			hwg.Add(1)
+			go func() {
+				defer hwg.Done()
+				for {
+					select {
+					case <-stop:
+						return
+					default:
+					}
+					if err := timeout.VerifCheckHeap(); err != nil && lost.Load() == nil {
+						lost.Store(err.Error())
+					}
+				}
+			}()
+		}
+		far := mon.Call(30*time.Second, 0, true)
+		var wg sync.WaitGroup
+		for c := 0; c < sc.Callers; c++ {
+			wg.Add(1)
+			go func() {
+				defer wg.Done()
+				for i := 0; i < 60; i++ {
+					mon.Call(time.Millisecond, 2*time.Millisecond, false)
+				}
+			}()
+		}
+		wg.Wait()
+		// the burst drains, the surplus workers wind down; with the far future pending one worker must stay
+		deadline := time.Now().Add(60 * time.Second)
+		for {
+			w, p := timeout.VerifState()
+			if w > int(stats["max_workers_seen"]) {
+				stats["max_workers_seen"] = int64(w)
+			}
+			if (p == 1 && w <= 1) || lost.Load() != nil {
+				break
+			}
+			if time.Now().After(deadline) {
+				close(stop)
+				hwg.Wait()
+				mon.Cancel(far)
+				return nil, nFut, stats, fmt.Sprintf("contended wind-down: workers=%d pending=%d after 60 s", w, p)
+			}
+			time.Sleep(500 * time.Microsecond)
+		}
+		time.Sleep(3 * sc.Idle) // stay there for a few idle periods: the last worker must not leave
+		w, p := timeout.VerifState()
+		close(stop)
+		hwg.Wait()
+		nFut += len(mon.Futures())
+		if e := lost.Load(); e != nil {
+			fs = append(fs, tmon.Finding{Sig: "timer/heap-invariant", What: "under lock contention during the pool wind-down the queue invariant (pending>0 => a worker exists) was broken: " + e.(string)})
+		} else if p >= 1 && w < 1 {
+			fs = append(fs, tmon.Finding{Sig: "timer/pending-without-worker", What: fmt.Sprintf("after the surplus workers left: %d future pending and %d workers", p, w)})
+		}
+		mon.Cancel(far)
+		if final, l := tmon.Drain(60 * time.Second); !final {
+			return fs, nFut, stats, "drain watchdog after contended wind-down: " + l
+		}
+		jf, _ := mon.Judge(0)
+		fs = append(fs, jf...)
+		if len(fs) > 0 {
+			return fs, nFut, stats, ""
+		}
+	}
+	return fs, nFut, stats, ""
+}
+
 func runScenario(sc scen) (fs []tmon.Finding, nFut int, stats map[string]int64, inconclusive string) {
+	if len(sc.Order) == 1 && sc.Order[0] == "contended" {
+		return contendedWindDown(sc)
+	}
 	stats = map[string]int64{}
 	timeout.VerifReset(sc.Idle, sc.MaxWorkers)
 	mon := tmon.New()
@@ -309,7 +398,7 @@ func TestChild(t *testing.T) {
 func TestCheck(t *testing.T) {
 	run := report.New("C13", "exploration")
 	defer run.Finish(t)
-	run.Rule("arrival patterns: permutations of {far future 30 s, near future 20 ms, burst of 50 futures (> pool), cancel the head of the queue, idle gap of 2.5 idle timeouts} (24 orders quick, all 120 thorough) x 1 or 4 concurrent callers x idle timeout 20 ms / 200 ms (/ 5 s thorough) x pool limit 1/2/10, callbacks return at once. Monitors: every non-cancelled future starts (drain detector on hook state; pending>0 with no worker is final), lateness <= 1.5 s, hook invariant pending>0 => workers>=1 sampled under the package lock, workers reach 0 within (limit+3) idle periods + 2 s and the goroutine census agrees, a Call after the wind-down fires again. evaluations = futures; distinct = distinct scenario configurations")
+	run.Rule("arrival patterns: permutations of {far future 30 s, near future 20 ms, burst of 50 futures (> pool), cancel the head of the queue, idle gap of 2.5 idle timeouts} (24 orders quick, all 120 thorough) x 1 or 4 concurrent callers x idle timeout 20 ms / 200 ms (/ 5 s thorough) x pool limit 1/2/10, callbacks return at once. Monitors: every non-cancelled future starts (drain detector on hook state; pending>0 with no worker is final), lateness <= 1.5 s, hook invariant pending>0 => workers>=1 sampled under the package lock, workers reach 0 within (limit+3) idle periods + 2 s and the goroutine census agrees, a Call after the wind-down fires again; contended wind-down rounds: a far future pending, a blocking burst grows the pool to its limit, four goroutines hammer the package lock while the surplus workers leave - one worker must stay. evaluations = futures; distinct = distinct scenario configurations")
 	run.Assume("lateness and wind-down bounds are two orders of magnitude above the healthy values and guarded by a stall canary (repeat up to 3 times, then inconclusive)")
 
 	if p := os.Getenv("VERIF_REPLAY"); p != "" {
